@@ -187,7 +187,7 @@ def generate(prop, seed, idx, tier="quick") -> dict:
         weights = {
             "transform": 6,
             "observe": 2,
-            "edit": {"C17": 8, "C06": 3, "C04": 3}.get(prop, 0),
+            "edit": {"C17": 8, "C06": 3, "C04": 3, "C05": 2}.get(prop, 0),
             "save": {"C06": 2}.get(prop, 0),
             "restart": {"C06": 6, "C17": 3, "C04": 3, "C05": 2, "C07": 0}.get(prop, 1),
             "dup": 1,
@@ -598,12 +598,19 @@ class Session:
                         value = int(current)
                 elif ikind == "borrowed_category":
                     own = {repr(v) for v in feat["values"] if v is not None}
+                    # bools are kept apart from numbers: True == 1 and False == 0 in Python, so a bool
+                    # "borrowed" into a 0/1-coded feature is neither clearly seen nor clearly unseen
+                    own_values = [v for v in feat["values"] if v is not None]
+                    own_bool = any(isinstance(v, bool) for v in own_values)
                     donors = [
                         v
                         for other in self.world["features"]
                         if other["kind"] != "quant" and other["name"] != feat["name"]
                         for v in other["values"]
-                        if v is not None and repr(v) not in own
+                        if v is not None
+                        and repr(v) not in own
+                        and not any(v == o for o in own_values)
+                        and (isinstance(v, str) or (isinstance(v, bool) == own_bool and not own_bool))
                     ]
                     uniq = sorted({repr(v): v for v in donors}.items())
                     value = uniq[pos % len(uniq)][1] if uniq else "zz_novel"
@@ -780,7 +787,7 @@ class Session:
         if len(obj.features) == 0:
             self.stats.probe("all_features_dropped")
         try:
-            self.model = DModel(obj)
+            self.model = DModel(obj, worlds.expected_sentinels(self.world))
         except ModelInvalid as err:
             raise _Fail("C04", "values_orders_well_formed", f"after fit: {err}") from err
         self._probe_model()
@@ -1131,7 +1138,7 @@ class Session:
             return outcome
         # O4: values_orders equals the model's state
         try:
-            real_now = DModel(self.live)
+            real_now = DModel(self.live, worlds.expected_sentinels(self.world))
         except ModelInvalid as err:
             raise _Fail("C17", "values_orders_after_edit", f"{where}: {err}", sig) from err
         if real_now.snapshot()[feat] != model.snapshot()[feat]:
@@ -1269,7 +1276,7 @@ class Session:
         if self.prop != "C04":
             return
         try:
-            fresh = DModel(self.live)
+            fresh = DModel(self.live, worlds.expected_sentinels(self.world))
         except ModelInvalid as err:
             raise _Fail("C04", "values_orders_well_formed", f"step {step} after {what}: {err}") from err
         if what == "restart" and fresh.snapshot() != self.model.snapshot():
